@@ -209,7 +209,8 @@ CHECKS['C10'] = dict(
          'and the C05 queue histories; after each such operation the result is enumerated (handles harvested through forEach) and, for queues, emptyQueue/waitFor(0)/enqueue/process '
          'are exercised; all later operations on every pool member stay under the model; non-trivial/distinct as C02/C05',
     jobs=JS('drv_cblist', 'asan', 'c10', 4000, 150000, M4, shards=4) + JS('drv_queue', 'asan', 'c10', 2100, 80000, MQ, seed_offset=2, shards=4)
-         + JS('drv_dispatch', 'asan', 'c10', 2400, 80000, MD, seed_offset=3, shards=4),
+         + JS('drv_dispatch', 'asan', 'c10', 2400, 80000, MD, seed_offset=3, shards=4)
+         + [J('drv_queue', 'O0', 'c10', 42, 1400, opts={'noprefill': '1'}, wrapper=['valgrind', '-q', '--error-exitcode=99', '--undef-value-errors=yes'], seed_offset=5, shards=14, shards_thorough=16, label='memcheck')],
     assumptions=['content of a moved-from source is not asserted (source is destroyed and re-created)', 'copy/move-assignment into a queue that still has pending events is not generated (the statement does not say what happens to them)'],
     technique='differential runtime monitor with copy/move/swap operations on pre-filled raw storage; ASan+UBSan',
     level_text='Exploration: every copy/move/swap result is checked for content, independence (all later changes to either object are compared with separate models) and full function.',
@@ -354,6 +355,64 @@ CHECKS['C19'] = dict(
     level_text='Exploration: the generation counter is placed 0..40 additions before 2^32 at random points (idle, inside callbacks, around copy/move/swap); thousands of real wraps are '
                'observed per run and the invocations before, during and after are checked against the model.',
     level_note="Trusted: the friend hook that stores currentCounter (equivalent to the suite's #define private public); wrap detection reads the real counter.",
+)
+
+def _c20_jobs():
+    quick = ['m-gcc-11-O2', 'm-clang-11-O2', 'm-gcc-20-O2', 'm-clang-20-O0']
+    allv = ['m-%s-%s-O%s' % (c, st, o) for c in ('gcc', 'clang') for st in ('11', '14', '17', '20') for o in ('0', '2')]
+    jobs = []
+    for v in allv:
+        tiers = ('quick', 'thorough') if v in quick else ('thorough',)
+        for drv, mask in (('drv_cblist', 0x100), ('drv_dispatch', 0x1000), ('drv_queue', 0x80)):
+            jobs.append(J(drv, v, 'c20', 320, 5000, defs=['-DVF_CFG_MASK=0x%x' % mask], shards=4, shards_thorough=4, tiers=tiers))
+    # prior memory: plain -O0 builds with the pool storage left UNDEFINED, under valgrind memcheck (uninitialised reads are fatal)
+    vg = ['valgrind', '-q', '--error-exitcode=99', '--undef-value-errors=yes', '--track-origins=no']
+    for drv, mask in (('drv_cblist', 0x100), ('drv_dispatch', 0x1000), ('drv_queue', 0x80)):
+        jobs.append(J(drv, 'm-gcc-11-O0', 'c20', 16, 400, defs=['-DVF_CFG_MASK=0x%x' % mask], opts={'noprefill': '1'}, wrapper=vg, seed_offset=7, shards=8, shards_thorough=16, label='memcheck'))
+    return jobs
+
+
+def _c20_post(cov, counters, tier, log, perjob, pid):
+    """the same seeds under every build must give the same trace accumulator per driver"""
+    import json, os
+    by_driver = {}
+    for (drv, mode, variant, opts), c in perjob.items():
+        if opts:
+            continue  # memcheck runs use another option set
+        by_driver.setdefault(drv, {})[variant] = (c.get('trace_xor_hi', 0) << 32 | c.get('trace_xor_lo', 0), c.get('cases_run', 0))
+    rc = 0
+    table = {}
+    for drv, m in sorted(by_driver.items()):
+        vals = set(m.values())
+        table[drv] = {v: '%016x/%d' % x for v, x in sorted(m.items())}
+        if len(vals) > 1:
+            path = os.path.join(os.path.dirname(os.path.abspath(__file__)), 'replays', '%s-%s-cross-build.json' % (pid, drv))
+            os.makedirs(os.path.dirname(path), exist_ok=True)
+            json.dump(dict(property=pid, driver=drv, key='c20:trace-differs-between-builds', per_build=table[drv]), open(path, 'w'), indent=1)
+            log('VIOLATION property=%s replay=%s' % (pid, path))
+            log('   key=c20:trace-differs-between-builds :: %s produced different trace accumulators: %s' % (drv, table[drv]))
+            rc = 1
+    cov['builds_compared'] = table
+    cov['builds'] = sorted(set(v for m in by_driver.values() for v in m))
+    return rc
+
+
+CHECKS['C20'] = dict(
+    title='Behaviour is independent of policies, compiler, standard level, prior memory',
+    level='exploration',
+    rule='policy families: the SAME generated program (C01/C02/C10 list programs incl. copy/move/swap and counter wrap; C04/C10 dispatcher programs; C05/C10 queue programs) is run under every member of a family '
+         'that differs only in policies - lists: {std::mutex+std::function, SingleThreading, SpinLock, custom callback+Single, custom callback+SpinLock}; dispatchers: {default unordered_map, SingleThreading, '
+         'std::map, user map(std::greater)+Single, IncludeEvent+SpinLock, custom callback}; queues: {default, Single, SpinLock, std::map+custom callback, IncludeEvent+Single} - each member checked against the model '
+         'in-process and the observable traces (operations, results, calls with arguments) compared by hash; build matrix: g++ 12 / clang++ 14 x -std=c++11/14/17/20 x -O0/-O2 (4 builds quick, 16 thorough), same '
+         'seeds, per-driver trace accumulators compared across builds; pool storage pre-filled with 0x00/0xFF/0xA5/0x5C/random before construction, plus a memcheck run with the storage left undefined; '
+         'evaluations = programs x family members x builds; distinct = trace hash',
+    jobs=_c20_jobs(),
+    post=_c20_post,
+    assumptions=['"any conforming compiler" is sampled at the two installed compilers (opposite argument evaluation orders)', 'own PRNG and distributions: the same program is generated under every build'],
+    technique='differential execution of identical generated programs across policy families and a compiler x standard x optimisation build matrix, each run under the model monitor; valgrind memcheck for prior-memory independence',
+    level_text='Exploration: every program runs 5-6 times per build under different policies and in 4 (quick) / 16 (thorough) builds; any difference in the observable trace between two of them, or from the model, is a violation.',
+    level_note='Trusted: the trace canonicalisation (no addresses/timing), the two installed compilers.',
+    timeout_quick=1500,
 )
 
 HOOK_COMMITS = ['104b3fd', '2c7a501', '6ad2faa', 'f317eda']
